@@ -37,6 +37,14 @@ def main():
         except driver.BuildError as e:
             print(e)
             ok = False
+    try:
+        cov = driver.count_overlay()
+        for cfg in driver.CONFIGS:
+            driver.build(cfg, "ctcount", overlay=cov, extra_tags=("verifcov",), suffix="-cov")
+            print("setup: built block-count victim", cfg)
+    except driver.BuildError as e:
+        print(e)
+        ok = False
     for extra in getattr(driver, "SETUP_EXTRA", []):
         try:
             extra()
